@@ -103,7 +103,19 @@ pub struct FilterCall {
     pub is_last_level: bool,
 }
 
+pub struct LiveIter {
+    pub s: SeqNo,
+    pub it: Box<dyn DoubleEndedIterator<Item = lsm_tree::IterGuardImpl> + Send>,
+    pub exp: Vec<(Key, Vec<u8>)>,
+    pub f: usize,
+    pub b: usize,
+    pub desc: String,
+    pub installs_at_open: u64,
+}
+
 pub struct Exec {
+    /// long-lived iterators (declared first: dropped before the tree)
+    pub iters: Vec<LiveIter>,
     pub dir: PathBuf,
     pub tree: Option<AnyTree>,
     pub seqno: SequenceNumberCounter,
@@ -236,6 +248,7 @@ impl Exec {
         }
         probes.truncate(24);
         Self {
+            iters: vec![],
             dir: dir.to_path_buf(),
             tree: None,
             seqno: SequenceNumberCounter::default(),
@@ -318,7 +331,7 @@ impl Exec {
 
     /// Largest legal GC watermark right now
     pub fn max_wm(&self) -> SeqNo {
-        match self.snaps.iter().map(|s| s.s).min() {
+        match self.snaps.iter().map(|s| s.s).chain(self.iters.iter().map(|i| i.s)).min() {
             Some(m) => m.saturating_sub(1),
             None => self.visible.get(),
         }
@@ -326,7 +339,7 @@ impl Exec {
 
     pub fn wm(&self, frac: u16) -> SeqNo {
         let max = self.max_wm();
-        if frac >= 60_000 && self.snaps.is_empty() {
+        if frac >= 60_000 && self.snaps.is_empty() && self.iters.is_empty() {
             // nobody holds a view: any watermark is within the usage protocol, including one above
             // every version change so far and the one this call makes itself (tests use 1_000 etc.)
             return self.visible.get() + 1_000_000;
@@ -746,6 +759,125 @@ impl Exec {
                 self.stats.bump("m.clear");
             }
             Op::Scan(spec) => crate::scan::run_scan(self, spec)?,
+            Op::IterOpen { lo, hi, snap } => {
+                if self.iters.len() < 3 {
+                    let s: SeqNo = match snap {
+                        0 | 1 => self.visible.get(),
+                        n => {
+                            let i = (*n - 2) as usize;
+                            if i < self.snaps.len() {
+                                self.snaps[i].s
+                            } else {
+                                self.visible.get()
+                            }
+                        }
+                    };
+                    let lo = resolve_bound(&self.keys, lo);
+                    let hi = resolve_bound(&self.keys, hi);
+                    let mut exp = vec![];
+                    let mut loose = false;
+                    for (k, e) in self.model.scan(s) {
+                        if !in_bounds(&k, &lo, &hi) {
+                            continue;
+                        }
+                        match e {
+                            Expect::Exact(Some((v, _))) => exp.push((k, v)),
+                            Expect::Loose => loose = true,
+                            _ => {}
+                        }
+                    }
+                    if !loose {
+                        let desc = format!("held iterator range({lo:?},{hi:?})@{s}");
+                        let it = self.tree().range::<Key, _>((lo, hi), s, None);
+                        let b = exp.len();
+                        self.iters.push(LiveIter {
+                            s,
+                            it,
+                            exp,
+                            f: 0,
+                            b,
+                            desc,
+                            installs_at_open: self.installs,
+                        });
+                        self.stats.bump("it.open");
+                    }
+                }
+            }
+            Op::IterStep { slot, pops } => {
+                if !self.iters.is_empty() {
+                    let i = (*slot as usize * self.iters.len()) >> 8;
+                    let installs = self.installs;
+                    let li = &mut self.iters[i];
+                    for p in pops {
+                        let got = if *p { li.it.next() } else { li.it.next_back() };
+                        let e = if li.f < li.b {
+                            Some(if *p { li.exp[li.f].clone() } else { li.exp[li.b - 1].clone() })
+                        } else {
+                            None
+                        };
+                        let got = match got {
+                            Some(g) => Some(guard_kv(g).map_err(|w| format!("{}: {w}", li.desc))?),
+                            None => None,
+                        };
+                        if got != e {
+                            return Err(format!(
+                                "{} (opened {} version installs ago) {}: yielded {:?}, expected {:?}",
+                                li.desc,
+                                installs - li.installs_at_open,
+                                if *p { "next" } else { "next_back" },
+                                got.as_ref().map(|x| crate::util::hex(&x.0)),
+                                e.as_ref().map(|x| crate::util::hex(&x.0))
+                            ));
+                        }
+                        if e.is_some() {
+                            if *p {
+                                li.f += 1
+                            } else {
+                                li.b -= 1
+                            }
+                        }
+                    }
+                    if installs > li.installs_at_open {
+                        self.stats.bump("it.step_after_version_change");
+                    }
+                    self.stats.bump("it.step");
+                }
+            }
+            Op::IterClose { slot, front } => {
+                if !self.iters.is_empty() {
+                    let i = (*slot as usize * self.iters.len()) >> 8;
+                    let mut li = self.iters.remove(i);
+                    loop {
+                        let got = if *front { li.it.next() } else { li.it.next_back() };
+                        let e = if li.f < li.b {
+                            Some(if *front { li.exp[li.f].clone() } else { li.exp[li.b - 1].clone() })
+                        } else {
+                            None
+                        };
+                        let got = match got {
+                            Some(g) => Some(guard_kv(g).map_err(|w| format!("{}: {w}", li.desc))?),
+                            None => None,
+                        };
+                        if got != e {
+                            return Err(format!(
+                                "{} drain: yielded {:?}, expected {:?}",
+                                li.desc,
+                                got.as_ref().map(|x| crate::util::hex(&x.0)),
+                                e.as_ref().map(|x| crate::util::hex(&x.0))
+                            ));
+                        }
+                        if e.is_none() {
+                            break;
+                        }
+                        if *front {
+                            li.f += 1
+                        } else {
+                            li.b -= 1
+                        }
+                    }
+                    self.stats.bump("it.close");
+                }
+            }
             Op::Fifo { .. } | Op::Clock { .. } => {
                 // handled by the dedicated C19 driver
             }
@@ -819,6 +951,7 @@ impl Exec {
             self.stats.bump("reopen.rich_layout");
         }
         self.snaps.clear();
+        self.iters.clear();
         self.tree = None; // drop
         let new_cfg = (cfg as usize * self.cfgs.len()) >> 8;
         // tree type is fixed for the life of a directory
